@@ -526,7 +526,7 @@ def stepRead (h : H) (s : Store) (ty : Ty) (frameCall : Bool) (n : Int) : H × S
   let count : Int := got.length / h.nb
   let vals := h.enc.decodeAll h.conv ty got
   let (count, rpos, tail) :=
-    if h.rpos + count / h.ch ≤ h.frames then (count, h.rpos + count / h.ch, List.replicate (len - count).toNat (pattern ty))
+    if count ≤ (h.frames - h.rpos) * h.ch then (count, h.rpos + count / h.ch, List.replicate (len - count).toNat (pattern ty))
     else
       let c := (h.frames - h.rpos) * h.ch
       (c, h.frames, List.replicate (len - c).toNat 0)
